@@ -79,8 +79,15 @@ Definition run_model_prefix (c : case) : outcome (list fact) :=
    variable-variable aliasing. Same case type; judge_uf runs eval_program_uf. *)
 From MV Require Export Datalog.SolveUF.
 
+(* The engine evaluates what the analysis hands it: analysis.RewriteClause
+   (analysis/rewriteclause.go:36, model Analysis/RuleCheck.v rewrite) moves a negated atom
+   behind the premise that binds its last variable. The generators of the main stream never
+   write a negated atom before its binders (rewrite is the identity there); an alias variant
+   may: "!q(V, W), W = V" is evaluated as "W = V, !q(V, W)". *)
+From MV Require Analysis.RuleCheck.
+
 Definition run_model_uf (strict : bool) (c : case) : outcome (list fact) :=
-  eval_program_uf strict (Z.to_nat (c_fuel c)) (c_prog c) (c_layers c) (c_store c) (c_init c).
+  eval_program_uf strict (Z.to_nat (c_fuel c)) (map RuleCheck.rewrite (c_prog c)) (c_layers c) (c_store c) (c_init c).
 
 Definition verdict_of (r : outcome (list fact)) (o : obs) : Z :=
   match r, o with
